@@ -39,6 +39,25 @@ def nontrivial(case):
     return has_share and other
 
 
+# The property is itself a refinement statement: "the operator's persisted shares, operators, fee recipients, per-owner
+# registration nonces, liquidation flags ... and last processed block equal what the registration rules prescribe".
+# The handler model refines the rule model for every history (C11_refines_spec...), so a case on which one of these
+# observations differs between the real handler and the model is an event history on which the property fails.
+SPEC_OBS = {"sh": "persisted share (owner, committee, own share key, liquidation flag, metadata)",
+            "ops": "persisted operator set", "rcp": "persisted fee recipient / registration nonce record",
+            "last": "last processed block", "self": "own operator id"}
+
+
+def divergence_violation(case, d):
+    _, impl, model = d
+    ki = impl.split()[1] if impl.startswith("OBS ") and len(impl.split()) > 1 else ""
+    km = model.split()[1] if model.startswith("OBS ") and len(model.split()) > 1 else ""
+    if ki in SPEC_OBS and (km == ki or km in SPEC_OBS):
+        return ("after this event history the %s is `%s`, the registration rules prescribe `%s`"
+                % (SPEC_OBS[ki], impl[4:], model[4:]))
+    return None
+
+
 def matches_known(finding, case):
     # F10 (duplicate operator id inside one block) is FIXED (cf04b819e): nothing is suppressed.
     # dup_opid_in_block(case) is its signature, kept for the record.
